@@ -209,9 +209,15 @@ func (e *endpoint) dispatch() (bool, *tcpip.Error) {
 		return false, err
 	}
 	//如果比头部长度还小，直接丢弃
-	if n <= e.hdrSize {
-		log.Printf("@链路层 fdbased: read %d bytes < header bytest %d,比头部长度还小直接丢弃", n, e.hdrSize)
+	if n == 0 {
+		// 读到0字节：对端已关闭
 		return false, nil
+	}
+	if n <= e.hdrSize {
+		// A frame that does not even carry a full link header is dropped;
+		// the dispatch loop must keep serving.
+		log.Printf("@链路层 fdbased: read %d bytes < header bytest %d,比头部长度还小直接丢弃", n, e.hdrSize)
+		return true, nil
 	}
 	var (
 		p                             tcpip.NetworkProtocolNumber
